@@ -707,6 +707,9 @@ pub fn judge(world: &World) -> Judgement {
                                 j.lua_tokens.push(b.attr("x-tok").unwrap_or("").to_string());
                                 if b.attr("x-ret") == Some("str") {
                                     RuleOutcome::Violations(vec![lua_payload(&s.file, b, &content)])
+                                } else if b.attr("x-ret") == Some("empty") {
+                                    // the empty string is a string: one diagnostic carrying it
+                                    RuleOutcome::Violations(vec![String::new()])
                                 } else {
                                     RuleOutcome::Ok
                                 }
